@@ -3,10 +3,10 @@ CONSTANTS
   Procs = {p1, p2}
   Versions = {1, 2}
   Bits = {32, 64}
-  MaxSteps = 8
-  Variant = "wrapperMemo"
+  MaxSteps = 6
+  Variant = "stampNow"
   WithSv = FALSE
-  Stamps = "now"
+  Stamps = "any"
   SvMode = "asWritten"
 INVARIANT TypeOK
 INVARIANT Coherent
